@@ -212,6 +212,11 @@ def rule_emission_guards(ctx, rule):
         ctx.ob(rule, "guard/%s" % tag, not foreign,
                "the '%s:' stem is only emitted under a test on another component (%s)%s" % (tag, ", ".join(foreign), ": a password without a user name is dropped" if tag == "w" else ""), st.site(call),
                witness="http://:pw@a.com/x" if tag == "w" else None, sample="%s: guarded by %s" % (tag, sorted(names)))
+        if tag == "t" and stmt is not None:
+            # the port stem is emitted whenever the netloc has a port piece: no test on the port's value
+            valtests = [t for t, pol in _enclosing_tests(fn, stmt) if any(isinstance(x, ast.Name) and x.id == "port" for x in ast.walk(t))]
+            ctx.ob(rule, "guard/t/no-test-on-port-value", not valtests,
+                   "the 't:' stem is skipped depending on the port's value (`%s`): urls on different ports get the same stems" % (unparse(valtests[0]) if valtests else ""), st.site(call), witness="https://lemonde.fr:80 vs https://lemonde.fr")
         # value unchanged: a bare name of the component
         ok = isinstance(val, ast.Name) and val.id in own[tag] | {"port"}
         ctx.ob(rule, "value/%s" % tag, ok, "the '%s:' stem carries `%s`, not the component itself" % (tag, unparse(val)), st.site(call))
@@ -308,4 +313,26 @@ def rule_netloc_split(ctx, rule):
     import re._constants as sc
     items = list(sp.parse(rx.pattern, rx.flags))
     ok = len(items) == 2 and items[0][0] is sc.LITERAL and chr(items[0][1]) == ":" and items[1][0] is sc.ASSERT_NOT and items[1][1][0] > 0
-    ctx.ob(rule, "port-splitter-shape", ok, "PORT_SPLITTER is not `:(?!...])`: %r" % rx.pattern, st.site(ctx.repo.const_node(st, "PORT_SPLITTER")), witness="http://[::1]:8080/")
+    site = st.site(ctx.repo.const_node(st, "PORT_SPLITTER"))
+    ctx.ob(rule, "port-splitter-shape", ok, "PORT_SPLITTER is not `:(?!...])`: %r" % rx.pattern, site, witness="http://[::1]:8080/")
+    m = re.match(r"^:\(\?!(.*)\)$", rx.pattern, re.S)
+    if ok and m:
+        body = m.group(1)
+        from ..relang import Algebra, Unsupported
+        try:
+            A = Algebra()
+            la = A.regex(body, rx.flags, "match", "lookahead")
+            # a ':' inside a bracketed IPv6 literal is followed by hex digits / colons / dots, the closing bracket, then anything
+            inside = A.regex(r"[0-9A-Fa-f:.]*\](?::[0-9]*)?", 0, "fullmatch")
+            w = A.subset(inside, la)
+            ctx.ob(rule, "port-splitter/never-splits-inside-brackets", w is None,
+                   "PORT_SPLITTER splits at a ':' that is followed by %r, i.e. inside a bracketed IPv6 literal: the host stem becomes 'h:[...' and lru_to_url returns an unparseable url" % w, site, witness="http://[2001:db8::1]:8080/x")
+            # the ':' that introduces the port is followed by digits only
+            port = A.regex(r"[0-9]*", 0, "fullmatch")
+            w = A.witness(A.inter(port, la))
+            ctx.ob(rule, "port-splitter/splits-before-the-port", w is None, "PORT_SPLITTER refuses to split before the port %r" % w, site, witness="http://a.com:8080/")
+        except Unsupported as e:
+            ctx.undecided(rule, "PORT_SPLITTER look-ahead: %s" % e)
+    # exactly two pieces -> the second is the port
+    uses = [n for n in ast.walk(fn) if isinstance(n, ast.Compare) and "len(netloc)" in unparse(n)]
+    ctx.ob(rule, "port-is-second-of-two-pieces", any(unparse(u).replace(" ", "") == "len(netloc)==2" for u in uses), "the emitter does not take the port from a two-piece split of the netloc", st.site(fn))
